@@ -46,6 +46,9 @@ func (d *Decoder) decodeTypedUint() (Type, uint64, error) {
 		nfollow = 4
 	case 27:
 		nfollow = 8
+	case 28, 29, 30, 31:
+		// Reserved (28-30) and indefinite-length (31) heads are not values.
+		return t, 0, fmt.Errorf("cbor: Unsupported additional information %d", ai)
 	default:
 		nfollow = 0
 	}
